@@ -6,10 +6,11 @@ From YV Require Import Common.Corr Model.Scalars Gen.ScalarOps Lemmas.Scalars Le
 Import ListNotations.
 
 Section Eval.
+Variable cf : cfg.   (* any of the three engine/context configurations *)
 Variable F : Type.
 Variable fo : fops F.
 
-Definition ev (o : op) (args : list (val F)) : res F := eval_op F fo registry o args.
+Definition ev (o : op) (args : list (val F)) : res F := eval_op F fo (registry_of cf) o args.
 Definition holds (o : op) (x y : val F) : Prop := ev o [x; y] = RVal (VBool true).
 Definition fails (o : op) (x y : val F) : Prop := ev o [x; y] = RVal (VBool false).
 
@@ -24,14 +25,14 @@ Lemma ev2 : forall o x y, In o binary_ops -> In (kind_of F x) grid_kinds -> In (
   ev o [x; y] = of_dres (expected2 o (kind_of F x) (kind_of F y)) [x; y].
 Proof.
   intros o x y Ho Hx Hy. unfold ev, eval_op. cbn [map].
-  rewrite (dispatch_table2 o _ _ Ho Hx Hy). reflexivity.
+  rewrite (dispatch_table2 cf o _ _ Ho Hx Hy). reflexivity.
 Qed.
 
 Lemma ev1 : forall o x, In o unary_ops -> In (kind_of F x) grid_kinds ->
   ev o [x] = of_dres (expected1 o (kind_of F x)) [x].
 Proof.
   intros o x Ho Hx. unfold ev, eval_op. cbn [map].
-  rewrite (dispatch_table1 o _ Ho Hx). reflexivity.
+  rewrite (dispatch_table1 cf o _ Ho Hx). reflexivity.
 Qed.
 
 Ltac inlist := cbn; tauto.
@@ -298,7 +299,7 @@ Proof.
   assert (H : forall o c, cmp_of o = Some c -> In o order_ops ->
             ev o [VNull; v] = RVal (VBool (null_const 1 c)) /\ ev o [v; VNull] = RVal (VBool (null_const 0 c))).
   { intros o c Hc Ho. unfold ev, eval_op. cbn [map kind_of].
-    destruct (null_dispatch o (kind_of F v) Ho) as [H1 H2]. rewrite H1, H2.
+    destruct (null_dispatch cf o (kind_of F v) Ho) as [H1 H2]. rewrite H1, H2.
     unfold null_expected. rewrite Hc. destruct (kind_of F v); try contradiction; split; reflexivity. }
   unfold holds, fails.
   destruct (H OLt CLt eq_refl) as [A1 A2]; [cbn; tauto|].
@@ -329,7 +330,7 @@ Lemma bool_rejected : forall o (b : bool) (v : val F), In o arith_order_ops ->
   ev o [VBool b; v] = RErr ENoMatch /\ ev o [v; VBool b] = RErr ENoMatch.
 Proof.
   intros o b v Ho Hc. unfold ev, eval_op. cbn [map kind_of].
-  destruct (bool_not_number o (kind_of F v) Ho) as [H1 H2]. rewrite H1, H2.
+  destruct (bool_not_number cf o (kind_of F v) Ho) as [H1 H2]. rewrite H1, H2.
   unfold bool_expected. destruct (cmp_of o) as [c|].
   - destruct Hc as [Hc|Hc]; [discriminate|]. destruct (kind_of F v); try contradiction; split; reflexivity.
   - split; reflexivity.
@@ -339,7 +340,7 @@ Lemma bool_rejected_unary : forall b : bool,
   ev UPos [VBool b] = RErr ENoMatch /\ ev UNeg [VBool b] = RErr ENoMatch.
 Proof.
   intros b. unfold ev, eval_op. cbn [map kind_of].
-  destruct bool_not_number_unary as [H1 H2]. rewrite H1, H2. split; reflexivity.
+  destruct (bool_not_number_unary cf) as [H1 H2]. rewrite H1, H2. split; reflexivity.
 Qed.
 
 (* with null on the other side the null rule applies and the boolean counts as "non-null" *)
